@@ -153,6 +153,65 @@ def random_root(rng):
     return FIXED["phi"]
 
 
+def frac_tok(fr):
+    """dyadic Fraction -> a/n token"""
+    n = fr.denominator.bit_length() - 1
+    assert fr.denominator == 1 << n
+    return "%d/%d" % (fr.numerator, n)
+
+
+def straddle_number(rng):
+    """`a:` token: root of x^2 - c (or x^3 - c) with an isolating interval SHORTER than 1 that STRADDLES an integer k (so
+    that lp_algebraic_number_construct has to split at k to establish "no integer strictly inside"; k usually does not
+    divide the constant term); several widths, both signs"""
+    for _ in range(100):
+        e = rng.choice([2, 2, 2, 3])
+        c = rng.randint(2, 70)
+        v = c ** (1.0 / e)
+        k = int(round(v))
+        if abs(v - k) < 1e-9 or k == 0:
+            continue
+        j = rng.choice([1, 2, 3, 4, 5, 6])
+        lo_max = min(v, k)
+        hi_min = max(v, k)
+        lo = Fraction(int(math.floor(lo_max * 2 ** j)) - rng.choice([0, 0, 1]), 2 ** j)
+        if lo >= lo_max:
+            lo -= Fraction(1, 2 ** j)
+        jh = rng.choice([1, 2, 3, 4, 5, 6])
+        hi = Fraction(int(math.ceil(hi_min * 2 ** jh)) + rng.choice([0, 0, 1]), 2 ** jh)
+        if hi <= hi_min:
+            hi += Fraction(1, 2 ** jh)
+        if not (lo < k < hi and lo < v < hi and hi - lo < 1 and lo > 0):
+            continue
+        cs = [-c] + [0] * (e - 1) + [1]
+        if rng.random() < 0.3 and e == 2:
+            # the negative root: p(-x) has the same coefficients for even e
+            return ("a:%s:%s:%s" % (",".join(map(str, cs)), frac_tok(-hi), frac_tok(-lo)), -v, e)
+        return ("a:%s:%s:%s" % (",".join(map(str, cs)), frac_tok(lo), frac_tok(hi)), v, e)
+    return ("a:-10,0,1:23/3:13/2", math.sqrt(10), 2)
+
+
+def inverse_source(rng):
+    """1/sqrt(n) as root of n x^2 - 1, n = k^2 +- 1 ...: lp_value_inv of it builds sqrt(n) from an interval around k"""
+    k = rng.randint(2, 9)
+    n = k * k + rng.choice([1, 1, -1, 2, 3])
+    return ("r:-1,0,%d:1" % n, 1 / math.sqrt(n), 2)
+
+
+def deep_dyadic(rng):
+    """n + m/2^d (m odd, d between 21 and 40: deeper than lp_value_approx refines) as the root of the REDUCIBLE cubic
+    (2^d x - (n 2^d + m)) (x^2 - 7) on (n, n+1), n in {0, 1}: not rational for libpoly (degree 3), but a bisection that
+    reaches depth d hits it exactly and the value collapses to a point in the middle of whatever loop is running.
+    Returns (number, (2^d, n 2^d + m)) - the linear factor, for polynomials that vanish exactly there"""
+    d = rng.choice([21, 22, 24, 24, 27, 30, 33, 40])
+    n = rng.choice([0, 1, 1])
+    k = rng.random()
+    m = 1 if k < 0.4 else ((1 << d) - 1 if k < 0.6 else (rng.randrange(1, 1 << d) | 1))
+    a, b = 1 << d, n * (1 << d) + m
+    cs = [7 * b, -7 * a, -b, a]          # (a x - b)(x^2 - 7)
+    return ("a:%s:%d/0:%d/0" % (",".join(map(str, cs)), n, n + 1), b / a, 3), (a, b)
+
+
 def make_pool(rng):
     """6 numbers: always some rational, sqrt2-family, a cubic root, a secretly rational number and a nearly-equal pair"""
     groups = [
@@ -170,14 +229,52 @@ def make_pool(rng):
         i = rng.randrange(NS - 2)
         k = rng.random()
         pool[i] = random_root(rng) if k < 0.5 else (random_rational(rng) if k < 0.7 else FIXED[rng.choice(sorted(FIXED))])
+    # numbers aimed at the representation invariants: an interval straddling an integer, a source for inv/div, a
+    # deep dyadic root behind a reducible polynomial
+    deep = None
+    free = list(range(NS - 2))
+    rng.shuffle(free)
+    if rng.random() < 0.5:
+        pool[free.pop()] = straddle_number(rng)
+    if rng.random() < 0.4:
+        pool[free.pop()] = inverse_source(rng)
+    if rng.random() < 0.4:
+        k = free.pop()
+        pool[k], lin = deep_dyadic(rng)
+        deep = (k, lin)
     perm = list(range(NS))
     rng.shuffle(perm)
     pool = [pool[k] for k in perm]
-    return pool, (perm.index(NS - 2), perm.index(NS - 1))
+    if deep is not None:
+        deep = (perm.index(deep[0]), deep[1])
+    return pool, (perm.index(NS - 2), perm.index(NS - 1)), deep
 
 
 # ------------------------------------------------------------------------------------------------ pool polynomials
 # (text, assigned variables used, uses x6)
+
+def make_deep_poly(rng, deep, root_only):
+    """polynomials that VANISH exactly at the deep dyadic root x_D = b/a (linear factor a x - b)"""
+    D, (a, b) = deep
+    B = rng.choice([k for k in range(NS) if k != D])
+    if root_only:
+        t = rng.choice([
+            ("1*x6^2+%d*x%d^1+-%d" % (a, D, b), [D]),                   # x6^2 + (a x_D - b): double root 0
+            ("%d*x%d^1*x6^1+-%d*x6^1+1*x6^2" % (a, D, b), [D]),        # x6 (x6 + a x_D - b)
+            ("1*x%d^1*x6^1+-1*x%d^1" % (D, B), [D, B]),
+        ])
+        return (t[0], t[1], True)
+    lo, hi = min(D, B), max(D, B)
+    t = rng.choice([
+        ("%d*x%d^1+-%d" % (a, D, b), [D]),
+        ("%d*x%d^1+-%d" % (a, D, b), [D]),
+        ("%d*x%d^1*x%d^1+-%d*x%d^1" % (a, lo, hi, b, B), [D, B]),      # x_B (a x_D - b)
+        ("%d*x%d^2+-%d*x%d^1" % (a, D, b, D), [D]),                    # x_D (a x_D - b)
+        ("%d*x%d^1+-%d" % (a, D, b + 1), [D]),                          # off by 2^-d: tiny but not zero
+        ("%d*x%d^1+1*x%d^1+-%d" % (a, D, B, b), [D, B]),               # = x_B
+    ])
+    return (t[0], t[1], False)
+
 
 def make_poly(rng, root_only, pair=None):
     A, B, C = rng.sample(range(NS), 3)
@@ -247,7 +344,7 @@ def near_dyadic(rng, v):
 
 
 OPS = [("cmp", 18), ("cz", 5), ("cq", 10), ("cd", 8), ("sg", 4), ("fl", 3), ("ce", 3), ("ii", 1), ("db", 3), ("rf", 8),
-       ("ha", 4), ("mi", 2), ("add", 3), ("sub", 2), ("mul", 3), ("neg", 1), ("cp", 6), ("rc", 3), ("ps", 7), ("pe", 7),
+       ("ha", 4), ("mi", 2), ("add", 3), ("sub", 2), ("mul", 3), ("neg", 1), ("inv", 3), ("div", 2), ("cp", 6), ("rc", 3), ("ps", 7), ("pe", 7),
        ("pr", 4)]
 
 
@@ -292,6 +389,23 @@ def history(rng, pool, polys, length, maxdeg=16):
             arith += 1
             ops.append("%s:%d:%d:%d" % (o, i, a, b))
             val[i], deg[i] = nv, nd
+        elif o == "inv":
+            a = rng.randrange(NS)
+            if abs(val[a]) < 1e-6 or abs(val[a]) > 1e6 or arith >= 8 or deg[a] > 8:
+                continue
+            arith += 1
+            ops.append("inv:%d:%d" % (i, a))
+            val[i], deg[i] = 1 / val[a], deg[a]
+        elif o == "div":
+            a, b = rng.randrange(NS), rng.randrange(NS)
+            nd = deg[a] * deg[b]
+            if abs(val[b]) < 1e-6 or nd > min(maxdeg, 8) or arith >= 8 or abs(val[a] / val[b]) > 1e4:
+                continue
+            if sum(1 for k in range(NS) if k != i and deg[k] <= 2) < 2:
+                continue
+            arith += 1
+            ops.append("div:%d:%d:%d" % (i, a, b))
+            val[i], deg[i] = val[a] / val[b], nd
         elif o == "neg":
             a = rng.randrange(NS)
             ops.append("neg:%d:%d" % (i, a))
@@ -310,15 +424,22 @@ def history(rng, pool, polys, length, maxdeg=16):
             d = 1
             for v in vs:
                 d *= deg[v]
-            if d > (8 if o == "pr" else maxdeg):
+            # polynomials with huge coefficients (2^21 .. 2^40, the ones vanishing at a deep dyadic root) only while the
+            # values involved are still of small degree: the eliminants grow like coefficient^degree
+            big = any(abs(int(c)) >= 1 << 16 for c in __import__("re").findall(r"-?\d+(?=\*|\+|$)", text))
+            if d > (6 if big else (8 if o == "pr" else maxdeg)):
                 continue
             ops.append("%s:%d" % (o, k))
     return ops
 
 
 def make_case(rng, length):
-    pool, pair = make_pool(rng)
+    pool, pair, deep = make_pool(rng)
     polys = [make_poly(rng, False, pair), make_poly(rng, False, pair), make_poly(rng, rng.random() < 0.7, pair)]
+    if deep is not None:
+        polys[0] = make_deep_poly(rng, deep, False)
+        if rng.random() < 0.6:
+            polys[2] = make_deep_poly(rng, deep, rng.random() < 0.5)
     rng.shuffle(polys)
     mode = rng.choice("OCM")
     ops = history(rng, pool, polys, length)
@@ -349,7 +470,7 @@ def approx_magnitude():
 def generate(rng, tier):
     global TIMEOUT
     # budget of ONE driver process over all remaining cases (a hanging library call is reported as a crash of its case)
-    TIMEOUT = 240 if tier == "quick" else 2400
+    TIMEOUT = 900 if tier == "quick" else 3000
     n = 70 if tier == "quick" else 600
     cases = []
     for k in range(n):
@@ -423,7 +544,7 @@ def _fails(case):
     return co is None or mo is None or mo.startswith("CHECK fail")
 
 
-def shrink(case, budget=60):
+def shrink(case, budget=30):
     """delta debugging (ddmin) over the operation list of a failing history; the pool stays as it is"""
     t = case.split()
     k = t.index(";")
